@@ -111,13 +111,15 @@ Fixpoint xor_into (s : list N) (blk : list N) : list N :=
 
 Definition zero_state : list N := repeat 0 25.
 
-(* absorb a padded message whose length is a multiple of [rate] bytes; [nb] = number of blocks *)
-Fixpoint absorb (rate : nat) (nb : nat) (s : list N) (msg : list N) : list N :=
+(* absorb a padded message whose length is a multiple of [rate] bytes; [nb] = number of blocks.
+   The sponge is written over an arbitrary permutation [f] of the state (instantiated with keccak_f
+   below) so that the structural laws of Proofs/RealHashes.v never have to unfold Keccak-f. *)
+Fixpoint absorb_g (f : list N -> list N) (rate : nat) (nb : nat) (s : list N) (msg : list N) : list N :=
   match nb with
   | O => s
   | S nb' =>
       let blk := lanes_of_bytes (Nat.div rate 8) (firstn rate msg) in
-      absorb rate nb' (keccak_f (xor_into s blk)) (skipn rate msg)
+      absorb_g f rate nb' (f (xor_into s blk)) (skipn rate msg)
   end.
 
 Definition pad (rate : nat) (suffix : N) (msg : list N) : list N :=
@@ -132,17 +134,19 @@ Definition state_bytes (rate : nat) (s : list N) : list N :=
   firstn rate (flat_map (bytes_of_lane 8) s).
 
 (* squeeze [nb] blocks *)
-Fixpoint squeeze (rate : nat) (nb : nat) (s : list N) : list N :=
+Fixpoint squeeze_g (f : list N -> list N) (rate : nat) (nb : nat) (s : list N) : list N :=
   match nb with
   | O => []
-  | S nb' => state_bytes rate s ++ squeeze rate nb' (keccak_f s)
+  | S nb' => state_bytes rate s ++ squeeze_g f rate nb' (f s)
   end.
 
-Definition sponge (rate : nat) (suffix : N) (msg : list N) (outlen : nat) : list N :=
+Definition sponge_g (f : list N -> list N) (rate : nat) (suffix : N) (msg : list N) (outlen : nat) : list N :=
   let p := pad rate suffix msg in
-  let s := absorb rate (Nat.div (length p) rate) zero_state p in
+  let s := absorb_g f rate (Nat.div (length p) rate) zero_state p in
   let nb := Nat.div (outlen + rate - 1) rate in
-  firstn outlen (squeeze rate nb s).
+  firstn outlen (squeeze_g f rate nb s).
+
+Definition sponge := sponge_g keccak_f.
 
 Definition shake128_N (msg : list N) (outlen : nat) : list N := sponge 168 31 msg outlen.
 Definition shake256_N (msg : list N) (outlen : nat) : list N := sponge 136 31 msg outlen.
